@@ -512,6 +512,12 @@ func (e *Exec) checkBlockShape(blk *pb.InternalBlock, who string) bool {
 
 // formatBlock builds a block of the producer (award first) with the given pending transactions in the given order.
 func (e *Exec) formatBlock(n *chainlib.Node, prop *xvlib.Account, order []int) (*pb.InternalBlock, error) {
+	return e.formatBlockT(n, prop, order, false)
+}
+
+// withTimer: the block also carries the timer transaction the node generates for its height (what a real peer's miner
+// does; forced-order blocks of the check phase carry the pending transactions only).
+func (e *Exec) formatBlockT(n *chainlib.Node, prop *xvlib.Account, order []int, withTimer bool) (*pb.InternalBlock, error) {
 	var list []*pb.Transaction
 	for _, i := range order {
 		t := e.w.Txs[i]
@@ -526,6 +532,15 @@ func (e *Exec) formatBlock(n *chainlib.Node, prop *xvlib.Account, order []int) (
 	hd, err := n.L.QueryBlockHeader(pre)
 	if err != nil {
 		return nil, err
+	}
+	if withTimer {
+		auto, err := n.S.GetTimerTx(hd.Height + 1)
+		if err != nil {
+			return nil, err
+		}
+		if auto != nil && len(auto.TxOutputsExt) > 0 {
+			list = append([]*pb.Transaction{auto}, list...)
+		}
 	}
 	return n.MakeBlock(prop, pre, hd.Height+1, list, time.Now().UnixNano())
 }
@@ -611,7 +626,7 @@ func (e *Exec) exec1(op string, pos []string, kv map[string]string, line string)
 		e.submit(t)
 		return "-"
 	case "fblock":
-		return e.opForeign(parseIDs(kv["txs"]))
+		return e.opForeign(parseIDs(kv["txs"]), kv["lazy"] == "1")
 	case "pack":
 		return e.opPack()
 	case "mine":
@@ -691,9 +706,11 @@ func realEdges(g [][2]int) []edge {
 
 // ---------------------------------------------------------------- ops
 
-func (e *Exec) opForeign(ids []int) string {
+// lazy: the producer only confirms the block in its ledger (Miner.batchConfirmBlock); its state follows when the next
+// mining round walks to the ledger tip.
+func (e *Exec) opForeign(ids []int, lazy bool) string {
 	w := e.w
-	blk, err := e.formatBlock(w.R, w.Miners[1], ids)
+	blk, err := e.formatBlockT(w.R, w.Miners[1], ids, true)
 	if err != nil {
 		return "error:" + err.Error()
 	}
@@ -712,6 +729,21 @@ func (e *Exec) opForeign(ids []int) string {
 	}
 	if stage, err := e.receive(w.R, blk, true); err != nil {
 		return "error:replica-" + stage
+	}
+	if lazy {
+		for i, tx := range blk.Transactions {
+			if !w.P.L.IsValidTx(i, tx, blk) {
+				return "error:producer-validtx"
+			}
+		}
+		if ok, _ := w.P.L.VerifyBlock(blk, "xv"); !ok {
+			return "error:producer-verify"
+		}
+		if st := w.P.L.ConfirmBlock(chainlib.CloneBlock(blk), false); !st.Succ {
+			return "error:producer-confirm"
+		}
+		e.out.Count("foreign-block-lazy")
+		return "-"
 	}
 	if stage, err := e.receive(w.P, blk, true); err != nil {
 		return "error:producer-" + stage
